@@ -12,7 +12,7 @@ TIERS = {
 }
 
 
-def iter_cases(ctx, conf, init_variants=True, want_random=True, with_reuse=True, with_faults=True):
+def iter_cases(ctx, conf, init_variants=True, want_random=True, with_reuse=True, with_faults=True, validator_faults=False):
     """Yield (v, params, kind, delivery, origin)."""
     nk, nd = len(tok.KIND_NAMES), len(tok.DELIVERY)
     c = 0
@@ -112,7 +112,8 @@ def iter_cases(ctx, conf, init_variants=True, want_random=True, with_reuse=True,
             else:
                 k = rng.randint(1, len(v) + 1)
             c += 1
-            yield v, params, rng.choice(tok.KIND_NAMES), f"{rng.choice(tok.DELIVERY)}|fault={k}:{names[i % len(names)]}", "source_fault"
+            which = "vfault" if validator_faults and i % 3 == 2 and k <= len(v) else "fault"
+            yield v, params, rng.choice(tok.KIND_NAMES), f"{rng.choice(tok.DELIVERY)}|{which}={k}:{names[i % len(names)]}", "source_fault"
             if (c & 255) == 0 and ctx.out_of_time():
                 return
     # the same tokenizer OBJECT used on another stream first: every token of the second use is still bound by the property
